@@ -292,6 +292,42 @@ def sweep(ctx: Ctx):
               and all(a == b for a, b in zip(dom, img) if not np.isfinite(b)))
         if not ok:
             rec("domain_of_image", kcls, (desc + ": domain", str(dom), str(tuple(float(v) for v in img))))
+    # node ORDER is not part of the contract: permuted (nested, descending) rules give the permuted grid, and whatever grid is returned
+    # contains all its nodes in its domain - also for parameter sets the constructor accepts but whose map is not monotone (a pole of
+    # HandyMod inside (-1, 1)): such a call either raises or returns a grid that contains its nodes
+    g7 = OG.GaussLegendre(7)
+    for cname in classes:
+        p0 = FIXED_INV[cname]
+        for pname, perm in (("nested", [3, 0, 6, 1, 5, 2, 4]), ("descending", [6, 5, 4, 3, 2, 1, 0]), ("ends-first", [0, 6, 3, 1, 5, 2, 4])):
+            desc = f"{cname}({', '.join(f'{k}={v}' for k, v in p0.items())}).transform_1d_grid(GaussLegendre(7) with its nodes in {pname} order {perm})"
+            try:
+                ref = transformed(_tf(cname, p0), g7)
+                new = transformed(_tf(cname, p0), OneDGrid(g7.points[perm].copy(), g7.weights[perm].copy(), (-1, 1)))
+            except Exception as e:  # noqa: BLE001
+                rec("node_order", cname, (desc, type(e).__name__ + ": " + str(e)[:60], "the permuted grid"))
+                continue
+            n += 1
+            if not (np.array_equal(new.points, ref.points[perm]) and np.array_equal(new.weights, ref.weights[perm]) and tuple(new.domain) == tuple(ref.domain)):
+                rec("node_order", cname, (desc, float(np.max(np.abs(new.points - ref.points[perm]))), 0.0))
+    for m_ in (3, 4, 2.5):
+        for rname in ("ClenshawCurtis", "Trapezoidal", "GaussLegendre"):
+            desc = f"HandyModRTransform(rmin=0.0, rmax=1.0, m={m_}).transform_1d_grid({rname}(9))  [accepted parameters, pole inside (-1, 1)]"
+            try:
+                new = transformed(_tf("HandyModRTransform", dict(rmin=0.0, rmax=1.0, m=m_)), getattr(OG, rname)(9))
+            except Exception:  # noqa: BLE001
+                continue  # rejected: fine
+            n += 1
+            dom = new.domain
+            if dom is None or not (np.nanmin(new.points) >= dom[0] - 1e-7 and np.nanmax(new.points) <= dom[1] + 1e-7):
+                rec("domain", "HandyModRTransform-pole", (desc, f"domain {tuple(float(v) for v in dom) if dom is not None else None}, nodes from {float(np.nanmin(new.points))!r} to {float(np.nanmax(new.points))!r}",
+                                                         "a ValueError, or a grid whose domain contains every node"))
+    for bad in ([-1.0, 3.0, 1.0], [-0.5, -7.0, 0.0, 0.5], [0.9, 0.0, 1.5, -0.9]):
+        desc = f"OneDGrid(np.array({bad}), ones, (-1, 1))  [an interior entry lies outside the domain]"
+        try:
+            OneDGrid(np.array(bad), np.ones(len(bad)), (-1, 1))
+            rec("domain", "OneDGrid-unsorted", (desc, "accepted", "ValueError (the domain must contain every node)"))
+        except ValueError:
+            n += 1
     # exactness transport: Gauss-Legendre mapped linearly to [a,b]
     for npt in ([2, 5, 8] if ctx.quick else range(2, 16)):
         a, b = Fraction(ctx.rng.randint(-8, 8), 4), None
